@@ -87,6 +87,16 @@ type Method struct {
 	Stop bool `json:"stop,omitempty"`
 	// Err: the body signals an error right after recording its marker
 	Err bool `json:"err,omitempty"`
+	// Relay (whopper or :before daemon of a message with an argument): when
+	// the argument is a number, i.e. on the outermost level of a send that no
+	// whopper has wrapped yet, the body first sends the same message to self
+	// with the argument (r <arg>), between the markers "<F" and ">F"; the
+	// nested send runs the whole combination once more before the outer one
+	// goes on from where it was
+	Relay bool `json:"relay,omitempty"`
+	// Twice (whopper): the body calls continue-whopper twice (the first result
+	// is dropped): everything inside the whopper runs twice
+	Twice bool `json:"twice,omitempty"`
 }
 
 // Step is one element of the history. Op: "flavor" (define flavor F),
@@ -94,18 +104,32 @@ type Method struct {
 // abstract component is not met; F stays undefined),
 // "method" (define method M; a repeated M is a redefinition), "inst" (make
 // an instance of F and keep it), "send" (send Msg to the kept instance of F).
+// Forms that have to fail and leave nothing behind: "method-err" (a defmethod
+// on the defined flavor F for message Msg with the daemon type :c11-bogus),
+// "flavor-dup" (a second, different defflavor of the defined flavor F),
+// "flavor-bad" (the defflavor of the not yet defined flavor F spoiled as Bad
+// says: unknown-component, unknown-included, required-method, bad-option).
+// Pkg (method steps): 1 = the form is evaluated while the current package is
+// one that neither uses nor is used by the package the flavors live in.
 type Step struct {
 	Op  string `json:"op"`
 	F   int    `json:"f,omitempty"`
 	M   int    `json:"m,omitempty"`
 	Msg string `json:"msg,omitempty"`
+	Bad string `json:"bad,omitempty"`
+	Pkg int    `json:"pkg,omitempty"`
 }
 
 // Case is a flavor DAG, a method assignment and a definition history.
 type Case struct {
 	Tmpl string `json:"tmpl,omitempty"`
 	// Rel: also run the forms in the reference order and compare the observations
-	Rel     bool     `json:"rel,omitempty"`
+	Rel bool `json:"rel,omitempty"`
+	// Decoy: before the history every flavor name of the case is defined with
+	// another definition (components reversed, other defaults, daemons of
+	// every kind with the marker z), instantiated, and removed again with
+	// undefflavor; the history then defines the names anew
+	Decoy   bool     `json:"decoy,omitempty"`
 	Flavors []Flavor `json:"flavors"`
 	Methods []Method `json:"methods"`
 	Steps   []Step   `json:"steps"`
@@ -178,12 +202,20 @@ type world struct {
 	meth    map[mkey]int // version (1 = first definition)
 	stop    map[mkey]bool
 	errm    map[mkey]bool
+	relay   map[mkey]bool
+	twice   map[mkey]bool
 	late    map[tm]int
+	// foreign: the table got a component's first daemon for the message from a
+	// form evaluated in the other package
+	foreign map[tm]bool
 	precs   map[int][]int
+	// shared: flavors whose precedence walk reached some flavor a second time
+	shared map[int]bool
 }
 
 func newWorld(c *Case) *world {
-	return &world{c: c, defined: make([]bool, len(c.Flavors)), meth: map[mkey]int{}, stop: map[mkey]bool{}, errm: map[mkey]bool{}, late: map[tm]int{}, precs: map[int][]int{}}
+	return &world{c: c, defined: make([]bool, len(c.Flavors)), meth: map[mkey]int{}, stop: map[mkey]bool{}, errm: map[mkey]bool{},
+		relay: map[mkey]bool{}, twice: map[mkey]bool{}, late: map[tm]int{}, foreign: map[tm]bool{}, precs: map[int][]int{}, shared: map[int]bool{}}
 }
 
 // prec is the precedence list of flavor t (indices), without vanilla.
@@ -196,6 +228,7 @@ func (w *world) prec(t int) []int {
 	var visit func(f int)
 	visit = func(f int) {
 		if seen[f] {
+			w.shared[t] = true
 			return
 		}
 		seen[f] = true
@@ -293,15 +326,32 @@ func (w *world) defFlavor(f int) {
 			w.late[tm{f, k.msg}] = lv
 		}
 	}
+	for k, fg := range w.foreign {
+		if fg && in[k.t] {
+			w.foreign[tm{f, k.msg}] = true
+		}
+	}
+}
+
+// foreignFlavor: some table of flavor t got a late daemon from the other package.
+func (w *world) foreignFlavor(t int) bool {
+	for k, fg := range w.foreign {
+		if fg && k.t == t {
+			return true
+		}
+	}
+	return false
 }
 
 // defMethod records a method definition and classifies what it means for the
 // tables of the flavors that already inherit from its flavor.
-func (w *world) defMethod(m Method) {
+func (w *world) defMethod(m Method, pkg int) {
 	first := !w.hasCombo(m.F, m.Msg)
 	w.meth[mkey{m.F, m.Kind, m.Msg}]++
 	w.stop[mkey{m.F, m.Kind, m.Msg}] = m.Stop
 	w.errm[mkey{m.F, m.Kind, m.Msg}] = m.Err
+	w.relay[mkey{m.F, m.Kind, m.Msg}] = m.Relay
+	w.twice[mkey{m.F, m.Kind, m.Msg}] = m.Twice
 	for t := range w.c.Flavors {
 		if !w.defined[t] || t == m.F {
 			continue
@@ -327,6 +377,9 @@ func (w *world) defMethod(m Method) {
 		}
 		if w.late[tm{t, m.Msg}] < lv {
 			w.late[tm{t, m.Msg}] = lv
+		}
+		if first && pkg != 0 {
+			w.foreign[tm{t, m.Msg}] = true
 		}
 	}
 }
@@ -393,7 +446,7 @@ type expect struct {
 	handled   bool
 	whopIn    []string // whopper entry markers, outermost first
 	before    []string
-	primary   string // marker of a user primary, "" for accessor/vanilla/no primary
+	prims     []string // markers of the user primary that ran (once per pass through the combination)
 	after     []string
 	whopOut   []string
 	hasPrim   bool
@@ -405,19 +458,20 @@ type expect struct {
 	// errs: a daemon signals an error; the trace ends with its marker, the
 	// send signals the error and nothing after that daemon takes effect
 	errs bool
+	// full: every marker in the order it has to appear, the nested sends of
+	// relaying daemons included (between "<F" and ">F")
+	full []string
+	// nested: what the nested sends of relaying daemons do, in order
+	nested []*expect
+	// primCand: flavors in precedence that offer a primary (user or accessor)
+	primCand int
+	// primKind: user, accessor, vanilla or none
+	primKind string
 }
 
-func (e *expect) trace() []string {
-	var t []string
-	t = append(t, e.whopIn...)
-	t = append(t, e.before...)
-	if e.primary != "" {
-		t = append(t, e.primary)
-	}
-	t = append(t, e.after...)
-	t = append(t, e.whopOut...)
-	return t
-}
+func (e *expect) trace() []string { return e.full }
+
+func (e *expect) emit(m string) { e.full = append(e.full, m) }
 
 func marker(tag string, f, ver int, ar int, arg val) string {
 	s := fmt.Sprintf("%s%d.%d", tag, f, ver)
@@ -427,140 +481,214 @@ func marker(tag string, f, ver int, ar int, arg val) string {
 	return s
 }
 
+// relayNested: the daemon of flavor f sends msg to self once more with (r arg);
+// false when the nested send signals an error (which then ends the outer one).
+func (w *world) relayNested(e *expect, in *inst, msg string, f int, arg val) bool {
+	e.emit("<" + strconv.Itoa(f))
+	ne := w.send(in, msg, []val{sym("r"), arg})
+	e.nested = append(e.nested, ne)
+	e.full = append(e.full, ne.full...)
+	if ne.errs {
+		return false
+	}
+	e.emit(">" + strconv.Itoa(f))
+	return true
+}
+
 // send computes the expected daemon sequence, result and state change of
 // sending msg (with arg, when the message takes one) to instance in.
 func (w *world) send(in *inst, msg string, arg val) *expect {
-	e := &expect{}
+	e := &expect{primKind: "none"}
 	ar := arity(msg)
 	p := w.prec(in.t)
 	contrib := map[int]bool{}
 	type wh struct{ f, ver int }
 	var whops []wh
-	stopped := false
 	for _, f := range p {
 		if ver := w.meth[mkey{f, "whopper", msg}]; 0 < ver {
 			whops = append(whops, wh{f, ver})
-			contrib[f] = true
-			if w.stop[mkey{f, "whopper", msg}] {
-				stopped = true
+		}
+	}
+	relays := func(key mkey, a val) bool {
+		_, num := a.(int)
+		return w.relay[key] && 0 < ar && num
+	}
+	for _, f := range p {
+		if 0 < w.meth[mkey{f, "primary", msg}] {
+			e.primCand++
+		} else if k, _ := w.accessor(f, msg); k != "" {
+			e.primCand++
+		}
+	}
+	entered := 0
+	// inner: every :before in precedence order, the first primary, every
+	// :after in reverse order; false when a daemon signals an error
+	inner := func(arg val) (result val, ok bool) {
+		for _, f := range p {
+			key := mkey{f, "before", msg}
+			if ver := w.meth[key]; 0 < ver {
+				mk := marker("b", f, ver, ar, arg)
+				e.before = append(e.before, mk)
+				e.emit(mk)
+				contrib[f] = true
+				if w.errm[key] {
+					return nil, false
+				}
+				if relays(key, arg) && !w.relayNested(e, in, msg, f, arg) {
+					return nil, false
+				}
+			}
+		}
+		for _, f := range append(append([]int{}, p...), vanillaIdx) {
+			if f == vanillaIdx {
+				if msg == "init" {
+					e.hasPrim = true
+					e.handled = true
+					e.primKind = "vanilla"
+				}
 				break
 			}
-			if w.errm[mkey{f, "whopper", msg}] {
-				e.errs = true
+			if ver := w.meth[mkey{f, "primary", msg}]; 0 < ver {
+				mk := marker("p", f, ver, ar, arg)
+				e.prims = append(e.prims, mk)
+				e.emit(mk)
+				e.hasPrim = true
+				e.primKind = "user"
+				if 0 < ar {
+					result = []val{f, ver, arg}
+				} else {
+					result = []val{f, ver}
+				}
+				contrib[f] = true
+				if w.errm[mkey{f, "primary", msg}] {
+					return nil, false
+				}
+				break
+			}
+			if k, v := w.accessor(f, msg); k != "" {
+				e.hasPrim = true
+				e.primKind = "accessor"
+				if k == "get" {
+					result = in.vars[v]
+				} else {
+					in.vars[v] = arg
+					result = arg
+				}
+				contrib[f] = true
 				break
 			}
 		}
+		for i := len(p) - 1; 0 <= i; i-- {
+			f := p[i]
+			if ver := w.meth[mkey{f, "after", msg}]; 0 < ver {
+				mk := marker("a", f, ver, ar, arg)
+				e.after = append(e.after, mk)
+				e.emit(mk)
+				contrib[f] = true
+				if w.errm[mkey{f, "after", msg}] {
+					return nil, false
+				}
+			}
+		}
+		return result, true
 	}
-	for _, wp := range whops {
-		e.whopIn = append(e.whopIn, marker("w", wp.f, wp.ver, ar, arg))
+	// run: whopper i around everything that follows it
+	var run func(i int, arg val) (val, bool)
+	run = func(i int, arg val) (val, bool) {
+		if i == len(whops) {
+			return inner(arg)
+		}
+		wp := whops[i]
+		key := mkey{wp.f, "whopper", msg}
+		if entered < i+1 {
+			entered = i + 1
+		}
+		contrib[wp.f] = true
+		mk := marker("w", wp.f, wp.ver, ar, arg)
+		e.whopIn = append(e.whopIn, mk)
+		e.emit(mk)
+		if w.errm[key] {
+			return nil, false
+		}
+		if relays(key, arg) && !w.relayNested(e, in, msg, wp.f, arg) {
+			return nil, false
+		}
+		xm := fmt.Sprintf("x%d.%d", wp.f, wp.ver)
+		if w.stop[key] {
+			// returns without continuing: nothing inside it runs
+			e.stopped = true
+			e.hasPrim = true
+			e.whopOut = append(e.whopOut, xm)
+			e.emit(xm)
+			return []val{sym("s"), wp.f}, true
+		}
+		next := arg
 		if 0 < ar {
-			arg = []val{wp.f, arg}
+			next = []val{wp.f, arg}
 		}
+		if w.twice[key] {
+			if _, ok := run(i+1, next); !ok {
+				return nil, false
+			}
+		}
+		r, ok := run(i+1, next)
+		if !ok {
+			return nil, false
+		}
+		e.whopOut = append(e.whopOut, xm)
+		e.emit(xm)
+		return []val{sym("w"), wp.f, r}, true
 	}
-	finish := func() *expect {
-		e.nFlavors = len(contrib)
-		e.nWhoppers = len(whops)
-		e.nDaemons = len(e.whopIn) + len(e.before) + len(e.after)
-		if e.primary != "" {
-			e.nDaemons++
-		}
+	res, ok := run(0, arg)
+	e.nFlavors = len(contrib)
+	e.nWhoppers = entered
+	e.nDaemons = len(e.whopIn) + len(e.before) + len(e.after) + len(e.prims)
+	if 0 < len(contrib) {
+		e.handled = true
+	}
+	if !ok {
+		e.errs = true
 		e.handled = true
 		e.hasPrim = false
 		e.result = nil
 		return e
 	}
-	if e.errs {
-		return finish()
-	}
-	if stopped {
-		// the innermost whopper entered returns without continuing: no
-		// :before, primary or :after daemon runs
-		last := whops[len(whops)-1]
-		e.hasPrim = true
-		e.result = []val{sym("s"), last.f}
-		e.whopOut = append(e.whopOut, fmt.Sprintf("x%d.%d", last.f, last.ver))
-		for i := len(whops) - 2; 0 <= i; i-- {
-			e.whopOut = append(e.whopOut, fmt.Sprintf("x%d.%d", whops[i].f, whops[i].ver))
-			e.result = []val{sym("w"), whops[i].f, e.result}
-		}
-		e.nFlavors = len(contrib)
-		e.nWhoppers = len(whops)
-		e.nDaemons = len(e.whopIn)
-		e.handled = true
-		e.stopped = true
-		return e
-	}
-	for _, f := range p {
-		if ver := w.meth[mkey{f, "before", msg}]; 0 < ver {
-			e.before = append(e.before, marker("b", f, ver, ar, arg))
-			contrib[f] = true
-			if w.errm[mkey{f, "before", msg}] {
-				e.errs = true
-				return finish()
-			}
-		}
-	}
-	for _, f := range append(append([]int{}, p...), vanillaIdx) {
-		if f == vanillaIdx {
-			if msg == "init" {
-				e.hasPrim = true
-				e.result = nil
-				e.handled = true
-			}
-			break
-		}
-		if ver := w.meth[mkey{f, "primary", msg}]; 0 < ver {
-			e.primary = marker("p", f, ver, ar, arg)
-			e.hasPrim = true
-			if 0 < ar {
-				e.result = []val{f, ver, arg}
-			} else {
-				e.result = []val{f, ver}
-			}
-			contrib[f] = true
-			if w.errm[mkey{f, "primary", msg}] {
-				e.errs = true
-				return finish()
-			}
-			break
-		}
-		if k, v := w.accessor(f, msg); k != "" {
-			e.hasPrim = true
-			if k == "get" {
-				e.result = in.vars[v]
-			} else {
-				in.vars[v] = arg
-				e.result = arg
-			}
-			contrib[f] = true
-			break
-		}
-	}
-	for i := len(p) - 1; 0 <= i; i-- {
-		f := p[i]
-		if ver := w.meth[mkey{f, "after", msg}]; 0 < ver {
-			e.after = append(e.after, marker("a", f, ver, ar, arg))
-			contrib[f] = true
-			if w.errm[mkey{f, "after", msg}] {
-				e.errs = true
-				return finish()
-			}
-		}
-	}
-	for i := len(whops) - 1; 0 <= i; i-- {
-		e.whopOut = append(e.whopOut, fmt.Sprintf("x%d.%d", whops[i].f, whops[i].ver))
-		e.result = []val{sym("w"), whops[i].f, e.result}
-	}
-	e.nFlavors = len(contrib)
-	e.nWhoppers = len(whops)
-	e.nDaemons = len(e.whopIn) + len(e.before) + len(e.after)
-	if e.primary != "" {
-		e.nDaemons++
-	}
-	if 0 < len(contrib) {
-		e.handled = true
-	}
+	e.result = res
 	return e
+}
+
+// defaultSource: the index in the precedence list of t of the flavor that gives
+// variable v its default (-1: none does) and the number of flavors giving one.
+func (w *world) defaultSource(t int, v string) (at, givers int) {
+	at = -1
+	for i, f := range w.prec(t) {
+		for _, fv := range w.c.Flavors[f].Vars {
+			if fv.name() == v && !fv.noDefault() {
+				if at < 0 {
+					at = i
+				}
+				givers++
+			}
+		}
+	}
+	return
+}
+
+// keySource: the index in the precedence list of t of the flavor that gives the
+// init keyword its entry, and the number of flavors that have one.
+func (w *world) keySource(t int, name string) (at, givers int) {
+	at = -1
+	for i, f := range w.prec(t) {
+		for _, k := range w.c.Flavors[f].Keys {
+			if "k"+strconv.Itoa(k.N) == name {
+				if at < 0 {
+					at = i
+				}
+				givers++
+			}
+		}
+	}
+	return
 }
 
 // mustAcceptVar: (make-instance t :<v> x) has to be accepted: some flavor in
